@@ -1035,7 +1035,10 @@ class Client():
 
             method = redirect.get('method')
 
-            host = coring.normalizeHost(hostname)
+            try:
+                host = coring.normalizeHost(hostname)
+            except (OSError, UnicodeError) as ex:  # location host does not resolve or is not a valid name
+                return False
             ha = (host, port)
             if ha != self.connector.ha or scheme != self.requester.scheme:
                 if self.requester.scheme == 'https' and scheme != 'https':
